@@ -146,6 +146,11 @@ impl C16 {
             if matches!(ctx.flavour, Flavour::Rel | Flavour::Dbg) {
                 v.extend(limit_probes());
             }
+            // values that compare equal but are not the same, written one after the other (a memo keyed on == would mix
+            // them up across evaluations)
+            for t in ["print(0.0)", "print(-0.0)", "print([0.0, -0.0])", "print([-0.0, 0.0])", "string(-0.0)", "string(0.0)", "print(1.0); print(1)", "print(1); print(1.0)", "print(\"1\"); print(1)", "print(-0.0); -0.0", "print(0.0); 0.0", "[-0.0]", "[0.0]", "print(ja); print(1)", "print(\"\"); print(null_())"] {
+                v.push(t.replace("null_()", "(als nee { 1 })"));
+            }
             // the same object reached along two paths inside one printed / converted value
             v.push("stel rij = [1, 2]; print([rij, rij, [3, 4]]); print(\"{} {}\", rij, rij); string([rij, [rij], rij])".to_string());
             v.push("functie paar(x) { [x, x] }; stel p = paar(paar([\"a\"])); print(p); [string(p), lengte(string(p))]".to_string());
